@@ -184,10 +184,13 @@ _DEG0 = object()
 
 class V:
     __slots__ = ("k", "cls", "is_self", "elem", "const", "anc", "deps", "deg", "fresh", "label", "shares", "ek",
-                 "meths", "node", "carrier", "recv")
+                 "meths", "node", "carrier", "recv", "alts")
 
     def __init__(self, k, cls=None, is_self=False, elem=None, const=None, anc=F(), deps=F(), deg=_DEG0, fresh=True,
-                 label=False, shares=F(), ek=F(), meths=None, node=None, carrier=None, recv=None):
+                 label=False, shares=F(), ek=F(), meths=None, node=None, carrier=None, recv=None, alts=None):
+        # alts: per-branch alternatives ((anc, deps), ...) when the value was assigned on both arms of an if/else;
+        # anc / deps are always their union (None = a single alternative)
+        self.alts = alts
         if deg is _DEG0:       # default: degree 0 in everything; an explicit None is bottom (zero / empty)
             deg = {}
         self.k = k
@@ -259,10 +262,58 @@ def join(vs):
              shares=F().union(*[v.shares for v in vs]), ek=F().union(*[v.ek for v in vs]), meths=meths)
 
 
+MAX_ALTS = 16
+
+
+def alts_of(v):
+    return v.alts if v.alts else ((v.anc, v.deps),)
+
+
+def _norm_alts(alts):
+    alts = tuple(dict.fromkeys(alts))
+    if len(alts) > MAX_ALTS:
+        return None
+    return alts if len(alts) > 1 else None
+
+
+def combine_alts(vs, extra_deps=F(), extra_anc=F(), anc_from=None):
+    """alternatives of a value computed from the operands `vs`: the product of their alternatives (bounded).
+    `anc_from`: operands whose ancestors are recorded (default: all of them)."""
+    alts = [(F(extra_anc), F(extra_deps))]
+    for v in vs:
+        if v is None:
+            continue
+        rec = anc_from is None or any(v is x for x in anc_from)
+        new = []
+        for (a1, d1) in alts:
+            for (a2, d2) in alts_of(v):
+                new.append((a1 | (a2 if rec else F()), d1 | d2))
+        new = list(dict.fromkeys(new))
+        if len(new) > MAX_ALTS:
+            new = [(F().union(*[a for a, _ in new]), F().union(*[d for _, d in new]))]
+        alts = new
+    return _norm_alts(alts)
+
+
+def set_alts(v, alts):
+    """install alternatives on v (anc/deps stay the unions computed by the caller)"""
+    v.alts = alts
+    return v
+
+
 def add_deps(v, extra):
     if not extra or v is None:
         return v
-    return v.clone(deps=v.deps | extra)
+    alts = tuple((a, d | extra) for a, d in v.alts) if v.alts else None
+    return v.clone(deps=v.deps | extra, alts=alts)
+
+
+def join_alts(a, b):
+    """merge of a variable assigned on both arms of an if/else: keep the arms apart (bounded)"""
+    j = join([a, b])
+    if a.k == "E" and b.k == "E":
+        j.alts = _norm_alts(alts_of(a) + alts_of(b))
+    return j
 
 
 # ---------------------------------------------------------------------------------------------- context
@@ -279,6 +330,7 @@ class Site:
     ctl: F = F()
     value: V = None
     has_parents: bool = True
+    alts: tuple = None
 
 
 class Cx:
@@ -297,6 +349,7 @@ class Cx:
         self.unknown = []
         self.stack = []
         self.fn = []             # stack of (path, qualname)
+        self.in_loop = 0
 
     def ctldeps(self):
         """control context as references tagged 'c' (4-tuples), so that data and control dependencies stay apart:
@@ -514,7 +567,7 @@ class Interp:
             d = d_nl(d_add(l.deg, r.deg))
         if l.k == "E" or r.k == "E":
             v = V("E", anc=l.anc | r.anc, deps=l.deps | r.deps | cx.ctldeps(), deg=d, fresh=True, label=False,
-                  ek=ek_binop(op, l, r))
+                  ek=ek_binop(op, l, r), alts=combine_alts([l, r], cx.ctldeps()))
         else:
             v = V("raw", deps=l.deps | r.deps, deg=d, carrier=l.carrier or r.carrier)
         return self.taintdeg(v, cx)
@@ -523,7 +576,8 @@ class Interp:
         v = self.ev(e.operand, env, cx)
         if isinstance(e.op, (ast.USub, ast.UAdd)):
             if v.k == "E":
-                return V("E", anc=v.anc, deps=v.deps | cx.ctldeps(), deg=v.deg, ek=v.ek)
+                return V("E", anc=v.anc, deps=v.deps | cx.ctldeps(), deg=v.deg, ek=v.ek,
+                         alts=combine_alts([v], cx.ctldeps()))
             return V("raw", deps=v.deps, deg=v.deg, carrier=v.carrier)
         return raw(v.deps, deg={})
 
@@ -557,7 +611,7 @@ class Interp:
                 return add_deps(b.elem, i.deps)
             return V("raw", deps=i.deps)
         if b.k == "E":
-            return b.clone(deps=b.deps | i.deps, ek=b.ek - {"EDICT"})   # entry of a per-usage-pattern dict attribute
+            return add_deps(b, i.deps).clone(ek=b.ek - {"EDICT"})   # entry of a per-usage-pattern dict attribute
         if b.k == "raw":
             return V("raw", deps=b.deps | i.deps, deg=b.deg, shares=b.shares, fresh=b.fresh, carrier=b.carrier,
                      recv=b.recv)
@@ -726,7 +780,9 @@ class Interp:
                     deg = d_nl(b.deg)
                 fresh = True
                 shares = b.shares if name in ("generate_explainable_object_with_logical_dependency",) else F()
+                recorded = [b] + (ea if "args" in s["parents"] else [])
                 v = V("E", anc=anc, deps=deps, deg=deg, fresh=fresh, shares=shares, ek=ek_method(name, b, ea),
+                      alts=combine_alts([b] + ea, nd | cx.ctldeps(), anc_from=recorded),
                       label=(b.label if name in ("copy", "__copy__", "__round__",
                                                   "generate_explainable_object_with_logical_dependency") else False)
                       or name == "np_compared_with")
@@ -859,7 +915,7 @@ class Interp:
             shares = val.shares if val is not None else F()
             pdeps = F().union(*[p.deps for p in pars]) if pars else F()
             v = V("E", anc=anc, deps=vdeps | pdeps | cx.ctldeps(), deg=deg, fresh=True, label=has_label,
-                  shares=shares, ek={E_CTORS[n]})
+                  shares=shares, ek={E_CTORS[n]}, alts=combine_alts(pars, vdeps | cx.ctldeps()))
             return self.taintdeg(v, cx)
         if n == "ExplainableObjectDict":
             return V("E", anc=F(), deps=cx.ctldeps(), deg=None, fresh=True, label=True, ek={"EDICT"})
@@ -882,7 +938,8 @@ class Interp:
                 v = V("E", anc=el.anc | (st.anc if st is not None else F()),
                       deps=el.deps | (st.deps if st is not None else F()) | a.deps | cx.ctldeps(),
                       deg=d_add(el.deg, sd), fresh=True, label=False,
-                      ek=(el.ek | (st.ek if (st is not None and st.k == "E") else F())) or F({"?"}))
+                      ek=(el.ek | (st.ek if (st is not None and st.k == "E") else F())) or F({"?"}),
+                      alts=combine_alts([el] + ([st] if st is not None and st.k == "E" else []), a.deps | cx.ctldeps()))
                 return self.taintdeg(v, cx)
             return self.taintdeg(raw(el.deps | a.deps, deg=el.deg), cx)
         if n == "getattr":
@@ -901,12 +958,13 @@ class Interp:
             return raw(alld, deg={})
         if n == "copy":
             if a0.k == "E":
-                return V("E", anc=a0.anc, deps=a0.deps | cx.ctldeps(), deg=a0.deg, fresh=True, label=a0.label, ek=a0.ek)
+                return V("E", anc=a0.anc, deps=a0.deps | cx.ctldeps(), deg=a0.deg, fresh=True, label=a0.label, ek=a0.ek,
+                         alts=combine_alts([a0], cx.ctldeps()))
             return V(a0.k, a0.cls, a0.is_self, a0.elem, deps=a0.deps, deg=a0.deg, carrier=a0.carrier, recv=a0.recv)
         if n == "round":
             if a0.k == "E":
                 return self.taintdeg(V("E", anc=a0.anc, deps=a0.deps | cx.ctldeps(), deg=d_nl(a0.deg), fresh=True,
-                                       label=a0.label, ek=a0.ek), cx)
+                                       label=a0.label, ek=a0.ek, alts=combine_alts([a0], cx.ctldeps())), cx)
             return raw(alld, deg=d_nl(a0.deg))
         if n == "isinstance":
             return raw(a0.deps, deg={})
@@ -1032,6 +1090,7 @@ class Interp:
         elif self._self_attr(tg, env):
             site = Site("write", stmt, where[1], where[0], target=tg.attr, parents=v.anc,
                         valdeps=v.deps | cx.ctldeps(), ctl=cx.ctldeps(), value=v)
+            site.alts = tuple((a, d | cx.ctldeps()) for a, d in alts_of(v)) if v.k == "E" else None
             cx.writes.setdefault(tg.attr, []).append(site)
         elif isinstance(tg, ast.Attribute):
             b = self.ev(tg.value, env, cx)
@@ -1045,6 +1104,7 @@ class Interp:
                 v2 = add_deps(v, i.deps)
                 site = Site("write", stmt, where[1], where[0], target=tg.value.attr, parents=v2.anc,
                             valdeps=v2.deps | cx.ctldeps(), ctl=cx.ctldeps(), value=v2)
+                site.alts = tuple((a, d | cx.ctldeps()) for a, d in alts_of(v2)) if v2.k == "E" else None
                 cx.writes.setdefault(tg.value.attr, []).append(site)
                 return
             base = tg.value
@@ -1111,6 +1171,7 @@ class Interp:
                 cx.ctl.append(it.deps)
                 tk = {k for k, d in (it.deg or {}).items() if d != 0}
                 cx.taint.append(tk)
+                cx.in_loop += 1
                 for _ in range(2):
                     before = dict(env)
                     self.bind(s.target, self.elem_of(it), env, cx)
@@ -1118,6 +1179,7 @@ class Interp:
                     for k in set(before) | set(env):
                         a, b = before.get(k), env.get(k)
                         env[k] = b if a is None else (a if b is None else (a if a is b else join([a, b])))
+                cx.in_loop -= 1
                 self.run(s.orelse, env, cx, rets)
                 cx.taint.pop()
                 cx.ctl.pop()
@@ -1143,7 +1205,13 @@ class Interp:
                     merged = {}
                     for k in set(e1) | set(e2):
                         a, b = e1.get(k), e2.get(k)
-                        merged[k] = a if b is None else (b if a is None else (a if a is b else join([a, b])))
+                        if a is None or b is None or a is b:
+                            merged[k] = a if b is None else b if a is None else a
+                        elif a is not env.get(k) and b is not env.get(k) and a.k == "E" and b.k == "E" \
+                                and not cx.in_loop:
+                            merged[k] = join_alts(a, b)      # assigned on both arms: keep the arms apart
+                        else:
+                            merged[k] = join([a, b])
                 env.clear()
                 env.update(merged)
                 if not (x1 or x2):
